@@ -250,6 +250,15 @@ def run_one(c, vals, np, om, override=None, tol=1e-9):
     built_old = c.native(vals, np, om)
     kwargs, sizes = built[0], built[1]
     okwargs = built_old[0]
+    if override and 'self' in kwargs:
+        # a mutation may sit in a CALLEE of the function under contract (e.g. a canary on compute_coeffs): the object
+        # becomes an instance of the mutant module's class, so that every method it calls is the mutated one
+        mcls = mod.__dict__.get(type(kwargs['self']).__name__)
+        if isinstance(mcls, type) and mcls is not type(kwargs['self']):
+            try:
+                kwargs['self'].__class__ = mcls
+            except TypeError:
+                pass
     call = built[2] if len(built) > 2 else None
     env = helpers(np)
     env.update(sizes)
